@@ -2,7 +2,7 @@
 import re
 
 from factlib import trace, resolve_const
-from common import ps_reachable, find_aggs, enum_arm_regions, exclusive_regions, calls_in, const_eval, constructs_variant
+from common import canon_place, ps_reachable, find_aggs, enum_arm_regions, exclusive_regions, calls_in, const_eval, constructs_variant
 
 WS = "async_graphql::http::websocket"
 # close codes a graphql-transport-ws server may send (protocol table) + IANA-registered codes
@@ -245,3 +245,39 @@ def run(F, R):
         R.check(ready_sw is not None and not bad, "R25.7", "inbound-loop:left-only-when-pending-or-with-a-pollable", ib.where(), "%d slot stores; exits checked" % len(slot_stores),
                 "the inbound message loop can be left through bb%s after a message was consumed, without returning an item and without arming init_fut/ping_fut: poll_next "
                 "can then return Pending although no waker was registered (e.g. a stop/complete for an unknown id stalls the connection)" % sorted({s for s, _ in bad}))
+
+    R.rule("R25.8", "the keep-alive supervises the session from the first poll: the poll of the keep-alive timer is not control-dependent on the handshake state "
+                    "(`data` / `on_connection_init`) — a client that never completes connection_init is timed out like any other")
+    ka = [c for c in pn.calls() if c.callee and re.search(r"poll_next_unpin$|Stream.*::poll_next$|Future::poll$", c.declared or c.callee) and
+          any(("keepalive" in str(x)) for x in polled_fields(c)) or (c.args and c.args[0][0] in ("c", "m") and "keepalive" in (pn.local_name(c.args[0][1][0]) or ""))]
+    if not ka:
+        ka = [c for c in pn.calls() if c.callee and re.search(r"poll_next_unpin$", c.callee)]
+    R.floor("R25.8", "keep-alive timer polls", len(ka), 1)
+    for c in ka[:1]:
+        bad = []
+        for sbb, t in pn.switches():
+            if not pn.dominates(sbb, c.bb) or t[1][0] not in ("c", "m"):
+                continue
+            succs = [x for x in pn.succ(sbb) if not pn.is_unreachable_block(x)]
+            if all(c.bb in pn.reachable(x, avoid=[sbb]) or x == c.bb for x in succs):
+                continue
+            # what the guard tests, precisely: the canonical place of its operand / discriminant, and for a call result the receiver's place
+            fs = set()
+            cp = canon_place(pn, t[1])
+            fs |= {f for f in (cp or []) if isinstance(f, str)}
+            d_ = pn.disc_of_switch(sbb)
+            if d_:
+                fs |= {f for f in d_[0] if isinstance(f, str)}
+            for c2 in pn.calls():
+                if c2.dest and cp and c2.dest[0] == cp[0] and c2.args and c2.args[0][0] in ("c", "m"):
+                    rp = canon_place(pn, c2.args[0])
+                    if rp and len(rp) == 1:
+                        for _bb, st_ in pn.defs_of_local(rp[0]):
+                            if st_[1][0] == "ref":
+                                rp = canon_place(pn, ["c", st_[1][1]]) or st_[1][1]
+                    fs |= {f for f in (rp or []) if isinstance(f, str)}
+            if fs & {".data", ".on_connection_init", ".init_fut"}:
+                bad.append(sbb)
+        R.check(not bad, "R25.8", "keepalive-poll-independent-of-handshake", c.where(), "no guard of the timer poll reads the handshake state",
+                "the keep-alive timer is only polled once the handshake state says so (guards at bb%s): before connection_init is acknowledged an expiry is never noticed and "
+                "the session stays open" % bad)
